@@ -77,6 +77,8 @@ def _decl_groups():
     g.append([s_typedef('FooRec', t_struct('_FooRec'), filename='foo-types.h', line=10)])
     g.append([s_struct('_FooRec', [s_member('x', t_basic('int')), s_member('n', t_basic('int'))],
                        filename='foo.h', line=20)])
+    # a second typedef name for the same struct (GObject / GInitiallyUnowned style)
+    g.append([s_typedef('FooRecAlso', t_struct('_FooRec'), filename='foo-types.h', line=11)])
     g.append([s_typedef('FooUni', t_union('_FooUni'), filename='foo-types.h', line=12)])
     g.append([s_union('_FooUni', [s_member('i', t_basic('int')), s_member('p', t_typedef('gpointer'))],
                       filename='foo.h', line=30)])
@@ -93,7 +95,9 @@ def _decl_groups():
     g.append([s_enum('FooKind', [s_enum_member('FOO_KIND_B', 1), s_enum_member('FOO_KIND_A', 0)],
                      filename='foo.h', line=80)])
     g.append([s_const('FOO_LIMIT', const_int=7, filename='foo.h', line=90),
-              s_const('FOO_ALSO', const_int=8, filename='foo.h', line=91)])
+              s_const('FOO_ALSO', const_int=8, filename='foo.h', line=91),
+              # matches both symbol prefixes of the namespace (foo and foo_bar)
+              s_const('FOO_BAR_MAX_ITEMS', const_int=9, filename='foo.h', line=92)])
     g.append([s_typedef('FooAlias', t_basic('int'), filename='foo.h', line=95)])
     g.append([s_typedef('FooCb', t_ptr(t_func(t_void(), [s_param('v', t_basic('int'))])), filename='foo.h', line=97)])
     return g
@@ -118,8 +122,11 @@ def _blocks():
             mk_block('FooObj:alpha', description='alpha property', filename='foo-obj.c', line=30)]
 
 
+PREFIXES = dict(identifier_prefixes=['Foo'], symbol_prefixes=['foo', 'foo_bar'])
+
+
 def _emit(decls, blocks, dump):
-    o = run_pipeline(decls, blocks, dump)
+    o = run_pipeline(decls, blocks, dump, prefixes=PREFIXES)
     if o.root is None:
         return None, 'pipeline stopped: %r %r' % (o.fatal, o.crashed)
     ns = o.sc.namespace
@@ -177,7 +184,7 @@ def block_order(perm: int, dump_perm: int):
         return True
 
 
-N_GROUPS = 16
+N_GROUPS = 17
 
 
 def decl_order(a: int, b: int, rot: int, rev: bool):
@@ -199,6 +206,10 @@ def decl_order(a: int, b: int, rot: int, rev: bool):
         if rev:
             groups.reverse()
         decls = [d for g in groups for d in g]
+        idents = [d.ident for d in decls]
+        if idents.index('FooRecAlso') < idents.index('FooRec'):
+            return True     # which of two typedef names of one struct comes first is not an irrelevant order:
+            #                 the first one names the record, the other becomes a second record sharing its fields
         got, err = _emit(decls, _blocks(), _dump_nodes())
         if got is None:
             return err
@@ -253,3 +264,72 @@ def sibling_order(n1: int, n2: int, n3: int, k1: int, k2: int, k3: int):
         if [n for _, n in rest] != sorted(n for _, n in rest):
             return 'non-alias siblings are not ordered by name: %r' % (got,)
         return True
+
+
+# ------------------------------------------------------------------------------
+# cold vs warm cache: a history of scans sharing one cache directory
+
+_GIR = '''<?xml version="1.0"?>
+<repository version="1.2" xmlns="http://www.gtk.org/introspection/core/1.0"
+            xmlns:c="http://www.gtk.org/introspection/c/1.0" xmlns:glib="http://www.gtk.org/introspection/glib/1.0">
+  <namespace name="Dep" version="1.0" c:identifier-prefixes="Dep" c:symbol-prefixes="dep">
+%s
+  </namespace>
+</repository>
+'''
+_BODIES = ('    <record name="Thing" c:type="DepThing"/>',
+           '    <record name="Other" c:type="DepOther"/>\n    <enumeration name="Mode" c:type="DepMode"><member name="a" value="0" c:identifier="DEP_MODE_A"/></enumeration>',
+           '    <record name="Thing" c:type="DepThing"/>\n    <record name="Third" c:type="DepThird"/>')
+
+
+def cache_history(f1: int, f2: int, f3: int, age: int):
+    """Three scans in a row share one cache directory; scan i includes dependency file f_i (three files
+    named Dep-1.0.gir in different directories with different contents; `age` permutes their time
+    stamps).  The dependency namespace each scan sees must be the one a cold parse of that file gives."""
+    import os
+    import shutil
+    import tempfile
+    f1 = sym.pick(f1, 0, 2)
+    f2 = sym.pick(f2, 0, 2)
+    f3 = sym.pick(f3, 0, 2)
+    age = sym.pick(age, 0, 5)
+    with sym.untraced():
+        from giscanner import cachestore
+        d = tempfile.mkdtemp(prefix='c16-cache-')
+        saved = dict((k, os.environ.get(k)) for k in ('XDG_CACHE_HOME', 'GI_SCANNER_DISABLE_CACHE'))
+        try:
+            os.environ['XDG_CACHE_HOME'] = os.path.join(d, 'cache')
+            os.environ.pop('GI_SCANNER_DISABLE_CACHE', None)
+            paths = []
+            order = _kth_permutation([0, 1, 2], age)
+            for i in range(3):
+                sub = os.path.join(d, 'dir%d' % i)
+                os.makedirs(sub)
+                p = os.path.join(sub, 'Dep-1.0.gir')
+                with open(p, 'w') as f:
+                    f.write(_GIR % _BODIES[i])
+                t = 1000000000 + 100 * order[i]
+                os.utime(p, (t, t))
+                paths.append(p)
+
+            def scan(path, cached):
+                ns = ast.Namespace('Foo', '1.0')
+                t = transformer.Transformer(ns)
+                t._cachestore = cachestore.CacheStore() if cached else None
+                t.register_include_uninstalled(path)
+                dep = t._parsed_includes['Dep']
+                return sorted((n, type(v).__name__) for n, v in dep.names.items())
+            cold = [scan(p, False) for p in paths]
+            for k, fi in enumerate((f1, f2, f3)):
+                got = scan(paths[fi], True)
+                if got != cold[fi]:
+                    return 'scan %d of file %d after history %r: the cache delivered %r, a cold parse gives %r' % (
+                        k + 1, fi, (f1, f2, f3)[:k], got, cold[fi])
+            return True
+        finally:
+            for k, v in saved.items():
+                if v is None:
+                    os.environ.pop(k, None)
+                else:
+                    os.environ[k] = v
+            shutil.rmtree(d, ignore_errors=True)
